@@ -601,8 +601,12 @@ bool GennaroJareckiKrawczykRabinDKG::Generate
 		complaints_counter.clear(), complaints_from.clear(); // reset for final complaint resolution
 		for (size_t j = 0; j < n; j++)
 			complaints_counter.push_back(0); // initialize counter
+		std::vector< std::vector<size_t> > unanswered(n); // complaints of Step 1(b) not yet answered in Step 1(c)
 		for (std::vector<size_t>::iterator it = complaints.begin(); it != complaints.end(); ++it)
+		{
 			complaints_counter[*it]++; // count my own complaints
+			unanswered[*it].push_back(i);
+		}
 		complaints.clear();
 		for (size_t j = 0; j < n; j++)
 		{
@@ -624,6 +628,7 @@ bool GennaroJareckiKrawczykRabinDKG::Generate
 					{
 						err << "P_" << i << ": receiving complaint against P_" << who << " from P_" << j << std::endl;
 						complaints_counter[who]++;
+						unanswered[who].push_back(j);
 						dup.insert(std::pair<size_t, bool>(who, true)); // mark as counted for $P_j$
 						if (who == i)
 							complaints_from.push_back(j);
@@ -684,6 +689,7 @@ bool GennaroJareckiKrawczykRabinDKG::Generate
 					size_t who = mpz_get_ui(lhs);
 					if (who >= n)
 						break; // end marker received
+					unanswered[j].erase(std::remove(unanswered[j].begin(), unanswered[j].end(), who), unanswered[j].end());
 					if (!rbc->DeliverFrom(foo, j))
 					{
 						err << "P_" << i << ": receiving foo failed; complaint against P_" << j << std::endl;
@@ -747,6 +753,11 @@ bool GennaroJareckiKrawczykRabinDKG::Generate
 					cnt++;
 				}
 				while (cnt <= n);
+				if (!unanswered[j].empty())
+				{
+					err << "P_" << i << ": complaint not answered in step 1c; complaint against P_" << j << std::endl;
+					complaints.push_back(j);
+				}
 			}
 		}
 		// 2. Each party the builds the set of non-disqualified parties $QUAL$.
